@@ -46,10 +46,10 @@ PARTIAL = {"Imports.resolve_sound": "soundness is a theorem (Imports.resolve_sou
                                     "and (2) EITHER for names whose class steps stay in the classes' own namespaces (PyImp.pyOwn; "
                                     "Imports.resolve_sound_partial) OR - INHERITED members included, no pyOwn - for the decidable "
                                     "sub-class classImportsUnique of WF (Imports.resolve_sound_inherited: a name bound by an import inside "
-                                    "a class body is bound by imports of that one class body only and is not the name of a definition or "
-                                    "non-root module; base classes written in any way, multiple inheritance, imports in class bodies "
-                                    "allowed). Left: inherited names in projects where two classes bind the same name, one of them by an "
-                                    "import (there the ORDER of the MRO decides: needs soundness of base-class resolution + C05 "
+                                    "a class body is not the name of a definition made inside a class body, and imports that bind the "
+                                    "same name in other class bodies bind it to the same thing; base classes written in any way, multiple "
+                                    "inheritance, imports in class bodies allowed). Left: inherited names in projects where two classes "
+                                    "bind the same name to different things, one of them by an import (there the ORDER of the MRO decides: needs soundness of base-class resolution + C05 "
                                     "pd_eq_cpython); the statement was false there before /repo d230b6e "
                                     "(Imports.resolve_sound_bases_counterexample, historical, over the old lookup expandLoopOld; finding "
                                     "unsound:inherited-attribute:base-import-skipped, fixed); such names are judged by the oracle and by "
@@ -465,6 +465,7 @@ def run(ctx: Ctx) -> None:
         ctx.count("pyimp:reverse-order")
     compare_lines(ctx, "pyimp-run-reversed", p_reqs, p_impl, p_pay)
     run_reexports(ctx)
+    run_reexport_sound(ctx)
     replay_witnesses(ctx)
 
 
@@ -504,6 +505,279 @@ def run_reexports(ctx: Ctx) -> None:
             pay.append({"units": src, "order": order})
             ctx.count("reexport:orders")
     compare_lines(ctx, "imports-build-reexports", reqs, impls, pay)
+
+
+class ShapeGen:
+    """projects of the re-export shape of C07's property (Imports.reexportShape): plain-module definers, re-exporters
+    (a package `__init__` / a sibling module) that import classes and functions DIRECTLY from the module that defines
+    them and list them in `__all__` (renamed or not), at most one re-exporter per object, no import in a class body;
+    consumers that import the old name, the new name, through module aliases, by star imports, and subclass moved
+    classes.  Acyclic; definition names globally unique; every name bound once per scope."""
+
+    def __init__(self, rng) -> None:
+        self.rng = rng
+        self.n = 0
+
+    def fresh(self, p: str) -> str:
+        self.n += 1
+        return "%s%d" % (p, self.n)
+
+    def cls(self, ind: str, base: Optional[str], depth: int = 0) -> Tuple[str, List[str]]:
+        rng = self.rng
+        c = self.fresh("C")
+        out = [ind + "class %s%s:" % (c, "(%s)" % base if base else ""), ind + "    '''ID:%s'''" % c]
+        for _ in range(rng.randint(0, 2)):
+            m = self.fresh("M")
+            out += [ind + "    def %s(self):" % m, ind + "        '''ID:%s'''" % m]
+        if rng.random() < 0.4:
+            v = self.fresh("V")
+            out.append(ind + "    %s = %d" % (v, 1000000 + self.n))
+        if depth < 1 and rng.random() < 0.35:
+            out += self.cls(ind + "    ", None, depth + 1)[1]
+        return c, out
+
+    def project(self) -> Tuple[List[Unit], List[int]]:
+        rng = self.rng
+        # layout (a package comes before its modules); the generation order below is the topological one
+        definers = ["pk._a", "pk._b"][: rng.randint(1, 2)] + (["d1"] if rng.random() < 0.5 else [])
+        reexps = ["pk"] + (["pk.api"] if rng.random() < 0.5 else [])
+        consumers = ["c1"] + (["c2"] if rng.random() < 0.6 else []) + (["pk.use"] if rng.random() < 0.6 else [])
+        lines: Dict[str, List[str]] = {q: ["'''module %s'''" % q] for q in definers + reexps + consumers}
+        bound: Dict[str, Dict[str, str]] = {q: {} for q in lines}          # name -> "cls" / "fn" / "var" / "imp"
+        has_all: Dict[str, Optional[List[str]]] = {q: None for q in lines}
+        taken: set = set()                                                  # (definer, name) already re-exported
+        done: List[str] = []
+
+        def rel(frm: str, to: str) -> Optional[str]:
+            """`to` written relatively from module `frm` (both inside pk), else None"""
+            if not (frm.startswith("pk") and to.startswith("pk.")):
+                return None
+            return "." + to[len("pk."):] if frm != "pk" or True else None
+
+        def modref(frm: str, to: str) -> str:
+            if rng.random() < 0.4:
+                r = rel(frm, to)
+                if r is not None and frm != to:
+                    return r
+            return to
+
+        for q in definers:
+            base_src = [d for d in done if d in definers]
+            if base_src and rng.random() < 0.5:
+                d = rng.choice(base_src)
+                cs = [n for n, k in bound[d].items() if k == "cls"]
+                if cs:
+                    b = rng.choice(cs)
+                    lines[q].append("from %s import %s" % (modref(q, d), b))
+                    bound[q][b] = "imp"
+            for _ in range(rng.randint(1, 3)):
+                bases = [n for n, k in bound[q].items() if k in ("cls", "imp")]
+                c, out = self.cls("", rng.choice(bases) if bases and rng.random() < 0.4 else None)
+                lines[q] += out
+                bound[q][c] = "cls"
+            for _ in range(rng.randint(0, 2)):
+                f = self.fresh("F")
+                lines[q] += ["def %s(a=1):" % f, "    '''ID:%s'''" % f]
+                bound[q][f] = "fn"
+            if rng.random() < 0.4:
+                v = self.fresh("V")
+                lines[q].append("%s = %d" % (v, 1000000 + self.n))
+                bound[q][v] = "var"
+            done.append(q)
+        for q in reexps:
+            exported: List[str] = []
+            for _ in range(rng.randint(1, 3)):
+                d = rng.choice(definers)
+                cands = [n for n, k in bound[d].items() if k in ("cls", "fn") and (d, n) not in taken]
+                if not cands:
+                    continue
+                n = rng.choice(cands)
+                al = n if rng.random() < 0.65 else self.fresh("R")
+                if al in bound[q]:
+                    continue
+                lines[q].append("from %s import %s%s" % (modref(q, d), n, "" if al == n else " as " + al))
+                bound[q][al] = "imp"
+                if rng.random() < 0.8:
+                    taken.add((d, n))
+                    exported.append(al)
+            if rng.random() < 0.4:
+                c, out = self.cls("", None)
+                lines[q] += out
+                bound[q][c] = "cls"
+                if rng.random() < 0.5:
+                    exported.append(c)
+            if exported or rng.random() < 0.5:
+                rng.shuffle(exported)
+                lines[q].append("__all__ = %r" % exported)
+                has_all[q] = list(exported)
+            done.append(q)
+        for q in consumers:
+            srcs = definers + reexps
+            if rng.random() < 0.35:
+                t = rng.choice(srcs)
+                names = has_all[t] if has_all[t] is not None else [n for n in bound[t] if not n.startswith("_")]
+                if names and not any(n in bound[q] for n in names):
+                    lines[q].append("from %s import *" % modref(q, t))
+                    for n in names:
+                        bound[q][n] = "imp"
+            for _ in range(rng.randint(1, 4)):
+                t = rng.choice(srcs)
+                form = rng.choice(["from", "from", "from_as", "import_as", "import"])
+                if form in ("from", "from_as"):
+                    cands = [n for n in bound[t]]
+                    if not cands:
+                        continue
+                    n = rng.choice(cands)
+                    al = n if form == "from" else self.fresh("al")
+                    if al in bound[q]:
+                        continue
+                    lines[q].append("from %s import %s%s" % (modref(q, t), n, "" if al == n else " as " + al))
+                    bound[q][al] = "cls" if bound[t][n] == "cls" or (bound[t][n] == "imp" and n.startswith("C")) else "imp"
+                elif form == "import_as":
+                    al = self.fresh("mm")
+                    lines[q].append("import %s as %s" % (t, al))
+                    bound[q][al] = "mod"
+                else:
+                    top = t.split(".")[0]
+                    if top not in bound[q]:
+                        lines[q].append("import %s" % t)
+                        bound[q][top] = "mod"
+            bases = [n for n, k in bound[q].items() if k == "cls"]
+            if bases and rng.random() < 0.6:
+                c, out = self.cls("", rng.choice(bases))
+                lines[q] += out
+                bound[q][c] = "cls"
+            done.append(q)
+        layout = [q for q in ["pk", "pk._a", "pk._b", "pk.api", "pk.use", "d1", "c1", "c2"] if q in lines]
+        units = [Unit(q, q == "pk", "\n".join(lines[q]) + "\n", "pk" if q.startswith("pk.") else None) for q in layout]
+        return units, [layout.index(q) for q in done]
+
+
+def run_reexport_sound(ctx: Ctx) -> None:
+    """item 3 (`noReexport` is not lifted as a theorem): the STATEMENT `pydoctor resolves a name to a, Python binds it to b
+    => a = finalLoc b` (identity by definition site, relocated to the re-exporter) and its order independence, searched for a
+    counterexample on projects of the re-export shape (ShapeGen, the C07 scenarios, BindGen with re-exports)
+    (1) at the level of the two Lean models (`imports rsound`: every dotted name of <= 3 components over the identifiers of the
+        project, every scope, every given processing order; a violation on a project that satisfies the decidable
+        hypothesis WFr = WF with noReexport replaced by reexportShape is a disagreement), and
+    (2) on the real pydoctor and the real CPython for the ShapeGen projects: every name CPython binds, under several
+        processing orders, identity by `ID:` docstring (location-independent); the registry / alias-map dump of every run
+        is compared with the model (`imports build`)."""
+    from .c07 import gen_project, orders
+    import re
+    reqs, pay = [], []
+    # --- ShapeGen: models + real systems
+    shape = []
+    for _ in range(30 if ctx.quick else 500):
+        units, topo = ShapeGen(ctx.rng).project()
+        shape.append((units, topo))
+    pyres = run_cpython([{"files": files_of(u), "modules": [x.qname for x in u], "sites": True} for u, _ in shape])
+    b_reqs, b_impl, b_pay = [], [], []
+    for (units, topo), py in zip(shape, pyres):
+        src = {u.qname: u.source for u in units}
+        if py["error"]:
+            ctx.count("rsound:shape:not-importable")
+            ctx.extra.setdefault("not_importable_examples", [])
+            if len(ctx.extra["not_importable_examples"]) < 3:
+                ctx.extra["not_importable_examples"].append({"error": py["error"], "units": src})
+            continue
+        try:
+            toks, info = abstract_project(units)
+        except Unsupported as e:
+            ctx.count("rsound:shape:unsupported:" + str(e))
+            continue
+        n = len(units)
+        ords = [topo, list(reversed(topo)), list(range(n))]
+        for _k in range(1 if ctx.quick else 3):
+            o = list(range(n))
+            ctx.rng.shuffle(o)
+            ords.append(o)
+        reqs.append("imports rsound " + " ".join(toks) + " O| ? " + " ".join(",".join(map(str, o)) for o in ords))
+        pay.append({"units": src, "orders": ords, "gen": "shape"})
+        answers = []
+        for order in ords:
+            try:
+                system, mods, dup = build_real(units, order)
+            except Exception as e:
+                ctx.fail("analysis-crash:" + type(e).__name__, {"units": src, "order": order}, f"{type(e).__name__}: {e}")
+                continue
+            b_reqs.append("imports build " + " ".join(toks) + " O|" + ",".join(map(str, order)) + " ?")
+            b_impl.append("ok bad=%s | %s | " % ("true" if dup else "false", pd_dump(system)))
+            b_pay.append({"units": src, "order": order})
+            by_doc = {o.docstring: o for o in system.allobjects.values()
+                      if isinstance(o.docstring, str) and o.docstring.startswith("ID:")}
+            ans = []
+            for scope, names in sorted(py["scopes"].items()):
+                so = system.allobjects.get(scope) or by_doc.get("ID:" + scope.rsplit(".", 1)[-1])
+                if so is None:
+                    ctx.fail("scope-missing", {"units": src, "order": order}, f"pydoctor has no object {scope}")
+                    continue
+                for dotted, pyid in sorted(names.items()):
+                    try:
+                        r = so.resolveName(dotted)
+                    except Exception as e:
+                        ctx.fail("resolve-crash:" + type(e).__name__, {"units": src, "scope": scope, "name": dotted}, str(e))
+                        continue
+                    pid = pd_ident(r)
+                    ans.append((scope, dotted, pid))
+                    ctx.count("rsound:shape:real-names")
+                    if r is not None and pyid[0] in ("def", "module", "value") and pid != pyid:
+                        ctx.fail("unsound:reexport-shape", {"units": src, "scope": scope, "name": dotted, "order": order},
+                                 f"in {scope}, {dotted!r} resolves to {pid} but Python binds {pyid}")
+            answers.append(ans)
+        for a in answers[1:]:
+            if a != answers[0]:
+                diff = next((x, y) for x, y in zip(answers[0], a) if x != y)
+                ctx.fail("order-dependent:reexport-shape", {"units": src, "orders": ords},
+                         f"resolution depends on the processing order: {diff[0]} vs {diff[1]}")
+                break
+    compare_lines(ctx, "imports-build-shape", b_reqs, b_impl, b_pay)
+    # --- the C07 scenarios (annotated variables dropped: the abstract syntax has no annotated assignment)
+    for _ in range(15 if ctx.quick else 300):
+        units, meta = gen_project(ctx.rng)
+        units2 = [Unit(u.qname, u.is_package, re.sub(r"(?m)^v_\w+: .*\n'''var'''\n", "", u.source), u.parent) for u in units]
+        try:
+            toks, info = abstract_project(units2)
+        except Unsupported as e:
+            ctx.count("rsound:c07:unsupported:" + str(e))
+            continue
+        ords = orders(units, ctx.rng, 4 if ctx.quick else 8)
+        reqs.append("imports rsound " + " ".join(toks) + " O| ? " + " ".join(",".join(map(str, o)) for o in ords))
+        pay.append({"units": {u.qname: u.source for u in units2}, "orders": ords, "gen": "c07"})
+    # --- BindGen with re-exports (mostly outside the shape: chains, star re-exports, packages as definers)
+    for _ in range(15 if ctx.quick else 300):
+        g = BindGen(ctx.rng, class_imports=False, reexports=True, subclasses=True)
+        units = g.project()
+        try:
+            toks, info = abstract_project(units)
+        except Unsupported:
+            ctx.count("rsound:bind:unsupported")
+            continue
+        n = len(units)
+        ords = [list(range(n)), list(range(n - 1, -1, -1))]
+        reqs.append("imports rsound " + " ".join(toks) + " O|" + ",".join(str(g.rank[u.qname]) for u in units) + " ? "
+                    + " ".join(",".join(map(str, o)) for o in ords))
+        pay.append({"units": {u.qname: u.source for u in units}, "orders": ords, "gen": "bind"})
+    if not (ctx.model_ok and reqs):
+        return
+    outs = ctx.driver.run_parallel(reqs)
+    for out, p in zip(outs, pay):
+        ctx.traces_validated += 1
+        flags = dict(t.split("=", 1) for t in out.split()[1:]) if out.startswith("ok ") else {}
+        if not flags:
+            ctx.disagree("reexport-sound-search", p, out, "ok wfr=...")
+            continue
+        key = "rsound:%s:" % p["gen"]
+        moved = int(flags["reqs"]) > 0
+        ctx.count(key + ("wfr" if flags["wfr"] == "1" else "not-wfr") + (":with-reexports" if moved else ":no-reexports"))
+        if flags["wfr"] == "1" and moved:
+            ctx.count("rsound:model-names-checked", int(flags["checked"]))
+            ctx.count("rsound:model-order-runs", len(p["orders"]))
+        if flags["viol"] != "0":
+            if flags["wfr"] == "1":
+                ctx.disagree("reexport-sound-search", p, "no violation of `a = finalLoc b` on a WFr project", out)
+            else:
+                ctx.count(key + "violations-outside-wfr")
 
 
 def replay_witnesses(ctx: Ctx) -> None:
